@@ -731,7 +731,7 @@ where
             let rank_b = rank_path_off[level];
             let two_bits = (symbol >> shift as usize).as_() & 3;
 
-            result = self.qvs[level].select(two_bits as u8, rank_b + result)? - b;
+            result = self.qvs[level].select(two_bits as u8, rank_b.checked_add(result)?)? - b;
             shift += 2;
         }
 
